@@ -2,6 +2,7 @@ import Soa.Model.Vec
 import Soa.Spec.Vec
 import Soa.Model.IndexRun
 import Soa.Extracted.Generic
+import Soa.Model.Cap
 /-!
 # Scenario interpreter: one operation per line, one observation line per side
 
@@ -75,11 +76,13 @@ structure World where
   rows : List (List Elem)   -- spec: the `Vec<T>` mirrors
   li : Ledger := {}
   ls : Ledger := {}
+  caps : List Cap.St := []  -- per register: capacity of every field vector
 
 def nreg : Nat := 3
 
 def World.init (cx : Ctx) : World :=
-  { regs := List.replicate nreg cx.shape.empty, rows := List.replicate nreg [] }
+  { regs := List.replicate nreg cx.shape.empty, rows := List.replicate nreg [],
+    caps := List.replicate nreg (Cap.St.new cx.kinds 0) }
 
 def parseReg (s : String) : Option Nat :=
   if s.startsWith "r" then (s.drop 1).toString.toNat? else none
@@ -305,6 +308,37 @@ def stepCore (cx : Ctx) (w : World) (ws : List String) : StepOut :=
       let (rows, es) := assignS w.rows q (os.ret.getD [])
       { w := { w with regs, rows }, i := { status := "ok", ev := oi.ev ++ ei }, s := { status := "ok", ev := os.ev ++ es } }
     | _, _ => badOp w
+  | ["reserve", r, _] | ["reserve_exact", r, _] | ["shrink_to_fit", r] =>
+    match parseReg r with
+    | some _ => { w, i := { status := "ok" }, s := { status := "ok" } }
+    | none => badOp w
+  | ["capacity", r] =>
+    match parseReg r with
+    | some r => { w, i := { status := "ok", ret := toString ((w.caps.getD r (Cap.St.new cx.kinds 0)).capacity) }, s := { status := "ok" } }
+    | none => badOp w
+  | ["caps", r] =>
+    match parseReg r with
+    | some r => { w, i := { status := "ok", ret := fmtNats ((w.caps.getD r (Cap.St.new cx.kinds 0)).caps.map (·.2)) }, s := { status := "ok" } }
+    | none => badOp w
+  | "promise" :: r :: rest =>
+    match parseReg r with
+    | some r =>
+      let st := w.caps.getD r (Cap.St.new cx.kinds 0)
+      let c := getI r
+      let len := c.firstLen
+      let cap := match rest with
+        | [n] => len + (n.toNat?.getD 0)
+        | _ => st.capacity
+      let k := min (cap - len) 64
+      let es := (List.range k).map (fun j => sh.elem (j % 32))
+      let oi := Model.extend c es
+      let os := Spec.extend (getS r) (es.map Cols.rows).flatten
+      let st' := Cap.St.pushes k { st with len := len }
+      let moved := st'.caps != st.caps
+      { w := { w with regs := setReg w.regs r oi.st, rows := setReg w.rows r os.st },
+        i := { status := "ok", ret := s!"promise cap_ge_len={decide (cap ≥ len)} moved={moved} pushed={k}" },
+        s := { status := "ok" }, madeI := (es.map Cols.flat).flatten }
+    | none => badOp w
   | acc :: r :: kind :: mode :: form :: a :: b :: rest =>
     -- checked / panicking indexing through the extracted index layer
     if acc != "get" && acc != "index" then badOp w else
@@ -466,6 +500,42 @@ def Ctx.fmtRegsI (cx : Ctx) (w : World) : String :=
 def Ctx.fmtRegsS (cx : Ctx) (w : World) : String :=
   ";".intercalate (w.rows.map (fun rs => fmtCols (cx.maskCols (rowsCols cx.kinds.length rs))))
 
+/-- capacities after one step (std's `RawVec` policy, `Soa/Model/Cap.lean`), from the operation
+    and the lengths before / after it -/
+def capUpdate (cx : Ctx) (w w' : World) (ws : List String) (ok : Bool) : List Cap.St :=
+  let fresh := Cap.St.new cx.kinds 0
+  let lenOf (wd : World) (r : Nat) : Nat := (wd.regs.getD r cx.shape.empty).firstLen
+  let get (r : Nat) : Cap.St := { (w.caps.getD r fresh) with len := lenOf w r }
+  let set (cs : List Cap.St) (r : Nat) (st : Cap.St) : List Cap.St := cs.set r st
+  let keep (r : Nat) : List Cap.St := set w.caps r ((get r).setLen (lenOf w' r))
+  let op := ((ws.headD "").dropWhile (· == 't')).toString
+  let op := if ["runcate", "o_vec"].contains op then "t" ++ op else op
+  let reg (i : Nat) : Nat := ((ws.getD i "").drop 1).toString.toNat?.getD 0
+  let num (i : Nat) : Nat := (ws.getD i "").toNat?.getD 0
+  if !ok then (List.range nreg).foldl (fun cs r => set cs r { (cs.getD r fresh) with len := lenOf w' r }) w.caps else
+  match op with
+  | "new" | "drop" => set w.caps (reg 1) fresh
+  | "with_capacity" => set w.caps (reg 1) (Cap.St.new cx.kinds (num 2))
+  | "push" | "insert" => set w.caps (reg 1) (get (reg 1)).push
+  | "extend" | "extend_refs" | "promise" => set w.caps (reg 1) (Cap.St.pushes (lenOf w' (reg 1) - lenOf w (reg 1)) (get (reg 1)))
+  | "collect" => set w.caps (reg 1) (Cap.St.pushes (lenOf w' (reg 1)) fresh)
+  | "append" =>
+    let cs := set w.caps (reg 1) ((get (reg 1)).grow (lenOf w (reg 2)))
+    set cs (reg 2) ((get (reg 2)).setLen 0)
+  | "extend_from_slice" => set w.caps (reg 1) ((get (reg 1)).grow (lenOf w (reg 2)))
+  | "resize" =>
+    let n := num 2
+    let l := lenOf w (reg 1)
+    set w.caps (reg 1) (if n > l then (get (reg 1)).grow (n - l) else (get (reg 1)).setLen n)
+  | "split_off" =>
+    let cs := keep (reg 1)
+    set cs (reg 3) { (Cap.St.new cx.kinds (lenOf w' (reg 3))) with len := lenOf w' (reg 3) }
+  | "to_vec" => set w.caps (reg 2) { (Cap.St.new cx.kinds (lenOf w' (reg 2))) with len := lenOf w' (reg 2) }
+  | "reserve" => set w.caps (reg 1) ((get (reg 1)).reserve (num 2))
+  | "reserve_exact" => set w.caps (reg 1) ((get (reg 1)).reserveExact (num 2))
+  | "shrink_to_fit" => set w.caps (reg 1) (get (reg 1)).shrink
+  | _ => (List.range nreg).foldl (fun cs r => set cs r { (cs.getD r fresh) with len := lenOf w' r }) w.caps
+
 /-- run one step and render the two observation lines; the ledgers are advanced -/
 def stepLines (cx : Ctx) (w : World) (n : Nat) (line : String) : World × String × String :=
   let ws := (line.splitOn " ").filter (· ≠ "")
@@ -474,7 +544,8 @@ def stepLines (cx : Ctx) (w : World) (n : Nat) (line : String) : World × String
   let li := (w.li.add cx r.madeI (r.i.ev ++ r.i.rev))
   let ls := (w.ls.add cx r.madeI (r.s.ev ++ r.s.rev))
   let w' := { r.w with li, ls }
-  let pure := ["get", "index", "len", "is_empty", "view", "iter", "bounds", "tget", "tlen", "ptr", "refs"].contains (ws.headD "")
+  let w' := { w' with caps := capUpdate cx w w' ws (r.i.status == "ok") }
+  let pure := ["get", "index", "len", "is_empty", "capacity", "caps", "view", "iter", "bounds", "tget", "tlen", "ptr", "refs"].contains (ws.headD "")
   if pure then (w', s!"I {n} {cx.fmtObs r.i} regs=~", s!"S {n} {cx.fmtObs r.s} regs=~") else
   (w', s!"I {n} {cx.fmtObs r.i} regs={cx.fmtRegsI w'}", s!"S {n} {cx.fmtObs r.s} regs={cx.fmtRegsS w'}")
 
